@@ -15,6 +15,7 @@ import traceback
 from fractions import Fraction as F
 
 VERIF = os.path.dirname(os.path.dirname(os.path.abspath(__file__)))
+OUT = os.environ.get("VERIF_OUT") or VERIF     # evidence/ and replays/ go here (mutation self-tests redirect it)
 
 TIERS = {
     # per-task path cap, per-task wall budget (s), per-query timeout (ms), validation samples
@@ -386,7 +387,7 @@ def finish(prop, results, meta, tier, seed, t0):
     for c in covers_unmet:
         harness_errors.append(f"cover goal never satisfiable: {c}")
     # ---- report
-    os.makedirs(os.path.join(VERIF, "replays"), exist_ok=True)
+    os.makedirs(os.path.join(OUT, "replays"), exist_ok=True)
     exit_code = 0
     for kid, hit in known_hits.items():
         print(f"KNOWN-FINDING: property={prop} {kid}: {hit['entry']['what']} ({hit['count']} witness(es), e.g. "
@@ -401,7 +402,7 @@ def finish(prop, results, meta, tier, seed, t0):
                                failed=v["failed"], tags=v["tags"], candidate=v["candidate"],
                                observed=v.get("observed"), hashes=hashes), indent=1, sort_keys=True)
         hid = hashlib.sha256(blob.encode()).hexdigest()[:12]
-        path = os.path.join(VERIF, "replays", f"{prop}-{hid}.json")
+        path = os.path.join(OUT, "replays", f"{prop}-{hid}.json")
         with open(path, "w") as fp:
             fp.write(blob)
         exit_code = 1
@@ -413,7 +414,7 @@ def finish(prop, results, meta, tier, seed, t0):
         exit_code = 1
     if len(seen_v) > 6:
         print(f"... {len(seen_v) - 6} further violating (harness, configuration, obligation) combinations; replay "
-              f"files written under {os.path.join(VERIF, 'replays')}")
+              f"files written under {os.path.join(OUT, 'replays')}")
     if harness_errors and exit_code == 0:
         exit_code = 2
     for e in harness_errors[:40]:
@@ -465,8 +466,8 @@ def finish(prop, results, meta, tier, seed, t0):
             "numba compilation is trusted (decorators are the identity; the Python source is what is encoded)",
         ] + sorted({s for h in meta.values() for s in h.stubs}),
     )
-    os.makedirs(os.path.join(VERIF, "evidence"), exist_ok=True)
-    with open(os.path.join(VERIF, "evidence", f"{prop}.json"), "w") as fp:
+    os.makedirs(os.path.join(OUT, "evidence"), exist_ok=True)
+    with open(os.path.join(OUT, "evidence", f"{prop}.json"), "w") as fp:
         json.dump(ev, fp, indent=1, sort_keys=True)
     print(f"{prop} tier={tier}: tasks={tot['tasks']} paths={tot['paths']} obligations={tot['obligations']} "
           f"discharged={tot['discharged']} refuted={tot['sat']} inconclusive={tot['unknown']} queries={tot['queries']} "
